@@ -2146,6 +2146,7 @@ class EdgeQLSourceGenerator(codegen.SourceGenerator):
 
     def visit_CreateIndexMatch(self, node: qlast.CreateIndexMatch) -> None:
         def after_name() -> None:
+            self.write(' ')
             self.visit(node.valid_type)
             self._write_keywords(' using ')
             self.visit(node.name)
@@ -2157,6 +2158,7 @@ class EdgeQLSourceGenerator(codegen.SourceGenerator):
 
     def visit_DropIndexMatch(self, node: qlast.DropIndexMatch) -> None:
         def after_name() -> None:
+            self.write(' ')
             self.visit(node.valid_type)
             self._write_keywords(' using ')
             self.visit(node.name)
@@ -2394,7 +2396,7 @@ class EdgeQLSourceGenerator(codegen.SourceGenerator):
 
     def visit_AlterCast(self, node: qlast.AlterCast) -> None:
         def after_name() -> None:
-            self._write_keywords('FROM ')
+            self._write_keywords(' FROM ')
             self.visit(node.from_type)
             self._write_keywords(' TO ')
             self.visit(node.to_type)
@@ -2407,7 +2409,7 @@ class EdgeQLSourceGenerator(codegen.SourceGenerator):
 
     def visit_DropCast(self, node: qlast.DropCast) -> None:
         def after_name() -> None:
-            self._write_keywords('FROM ')
+            self._write_keywords(' FROM ')
             self.visit(node.from_type)
             self._write_keywords(' TO ')
             self.visit(node.to_type)
